@@ -2,6 +2,7 @@
 //! --cfg mrecordlog_verif) and records traces for validation against the TLA+ specification.
 mod aimed;
 mod alloc;
+mod codec;
 mod crash;
 mod damage;
 mod disk;
@@ -380,6 +381,7 @@ fn main() {
         "pair" => pair::cmd(&args),
         "names" => names::cmd(&args),
         "frames" => frames::cmd(&args),
+        "codec" => codec::cmd(&args),
         "sigkill" => sigkill::cmd(&args),
         "killchild" => sigkill::child(&args),
         _ => {
